@@ -17,6 +17,7 @@ TSys    == IsEvent("sys") /\ ASys(Ev.p, Ev.n, Ev.a, Ev.c, Ev.ret, Ev.allocs) /\ 
 TStage  == IsEvent("stage") /\ AStage(Ev) /\ UNCHANGED scn
 TRes    == IsEvent("presult") /\ AResult(Ev) /\ UNCHANGED scn
 THRes   == IsEvent("hresult") /\ AResult(Ev) /\ UNCHANGED scn
+TPHeld  == IsEvent("pheld") /\ APHeld(Ev.have, Ev.fds) /\ UNCHANGED scn
 TDog    == IsEvent("watchdog") /\ AWatchdog(Ev) /\ UNCHANGED scn
 TAfter  == IsEvent("after_drop") /\ AAfterDrop(Ev.children) /\ UNCHANGED scn
 TPost ==
@@ -25,7 +26,7 @@ TPost ==
   /\ UNCHANGED <<avars, scn>>
 TEnd    == IsEvent("end") /\ UNCHANGED <<avars, scn>>
 
-TraceNext == TReset \/ TPre \/ TSys \/ TStage \/ TRes \/ THRes \/ TDog \/ TAfter \/ TPost \/ TEnd
+TraceNext == TReset \/ TPre \/ TSys \/ TStage \/ TRes \/ THRes \/ TPHeld \/ TDog \/ TAfter \/ TPost \/ TEnd
 TraceSpec == TraceInit /\ [][TraceNext]_tvars
 
 TraceAccepted ==
